@@ -152,7 +152,7 @@ def obligations(cx):
                     if p.outcome != 'return': continue
                     am = getattr(p.ex, 'argmin', None)
                     j = var('j', 'I')
-                    used = [t for t in getattr(p.ex, 'exp_accessed', []) if not (t.op == 'v' and t.a[0].startswith('ix!'))]
+                    used = [t for t in getattr(p.ex, 'exp_accessed', []) if not (t.op == 'v' and (t.a[0].startswith('ix!') or t.a[0] == 'k'))]          # generic comprehension / loop indices: reading EVERY element (to build the temperature list) is not a selection
                     if am is not None:
                         if pi == 0:
                             e2 = Exec(src, [], ctr); e2.pc = list(p.pc) + [j >= 0, j < n]
